@@ -401,6 +401,12 @@ theorem createTable_pt (s : Pkg) (name : List Char) (cols : List Column)
   | some k => exact hp
   | none =>
     simp only
+    cases hroom : catalogRoom s name cols with
+    | err k => exact hp
+    | panic w => exact hp
+    | ok u =>
+    cases u
+    simp only
     have g1 := insertRows_pt C A s Gen.nameColumns.toList _ h1 hp
     generalize hr1 : insertRows s Gen.nameColumns.toList (catalogRowsColumns name cols) = r1 at g1
     obtain ⟨s1, res1⟩ := r1
